@@ -357,14 +357,21 @@ def finish_warm(ex, seed, pre, final):
     }
 
 
-def cold_eval(ops, k, final, seed=0):
-    """Pristine process: execute only the derivation closure of op k, then op k."""
+# ops whose very subject is the operand object itself (its memo, its identity, mutation of it)
+NO_DECOUPLE = frozenset(["mutate", "mutate_returned", "setattr", "mk", "read_memo"])
+
+
+def cold_eval(ops, k, final, seed=0, decouple=False):
+    """Pristine process: execute only the derivation closure of op k, then op k.  With `decouple`, op k
+    gets an independent unpickled twin for every URL operand role (equal values, no shared identity)."""
     need = W.closure(ops, k)
     slots = [None] * len(ops)
     out = None
     obs = None
     for i in need:
         op = ops[i]
+        if decouple and i == k:
+            op = W.decouple_operands(op, slots)
         o, res, _ = W.apply_op(op, slots)
         slots[i] = res
         if i == k:
@@ -387,10 +394,18 @@ def compare(case, warm):
         wout = warm["outcomes"][k]
         if wout[0][0] == "skip":
             continue
-        cold = in_fork(cold_eval, ops, k, False, timeout=60)
+        # a seeded third of the cold references also cut every identity link between the operands
+        # (the decision is recorded in the op, so that it survives re-indexing during minimisation)
+        dec = op.get("dec")
+        if dec is None:
+            dec = op["op"] not in NO_DECOUPLE and C.run_rng((case.get("seed") or 0) * 7919 + k).random() < 0.35
+            op["dec"] = dec
+        cold = in_fork(cold_eval, ops, k, False, 0, dec, timeout=60)
         nforks += 1
         if cold != wout:
             d = {"kind": "history_dependent_outcome", "at_op": k, "op": op["op"], "warm": _short(wout[0]), "cold": _short(cold[0])}
+            if dec:
+                d["cold_operands"] = "independent unpickled twins"
             if cold[0] == wout[0] and isinstance(cold[1], dict) and isinstance(wout[1], dict):
                 d["obs_diff"] = W.deep_diff(wout[1], cold[1])[:12]
             viols.append(d)
@@ -425,6 +440,7 @@ def _finish(warm):
     viols.extend(cviols)
     ctr = dict(warm["counters"])
     ctr["cold_reference_forks"] = nforks
+    ctr["cold_references_with_decoupled_operands"] = sum(1 for o in case["ops"] if o.get("dec"))
     nt = []
     if warm["nontrivial"]:
         nt = [C.h8((case["ops"], case["knobs"]))]
